@@ -69,8 +69,14 @@ class CusumSystem(System):
     def step(self, cfg, state, ev, pos, ctx):
         det = state["det"]
         err = None
+        # "offset" families feed level + symbol: the same tests far away from 0, where a numerically careless
+        # re-estimation (one-pass variance, say) loses all its digits; decisions within 1e-6 of the threshold are
+        # undecidable there (the float mean / standard deviation of 3e7-sized data carry ~1e-8 relative error)
+        x = float(ev) + float(cfg.get("offset", 0.0))
+        if cfg.get("offset"):
+            ctx.count("offset_level_steps")
         try:
-            det.update(float(ev))
+            det.update(x)
         except ValueError as e:
             msg = " ".join(str(e).split())
             err = "ValueError" if msg.startswith("Standard deviation is 0") else "ValueError: " + msg[:120]
@@ -84,9 +90,10 @@ class CusumSystem(System):
         }
         model, exp, ok = lockstep(
             state["model"],
-            lambda m, D: m.step(ev, D),
+            lambda m, D: m.step(x, D),
             lambda e: not diff_keys(e, obs),
             stats=ctx.stats,
+            **({"tie": 1e-6} if cfg.get("offset") else {}),
         )
         state["model"] = model
         if not ok:
@@ -447,10 +454,24 @@ def tasks(tier, seed):
             out.extend(_dfs_tasks(system, kind, p, depth, model_cls))
     for i, (system, dname, p, kq, kt) in enumerate(DEV_CFGS):
         out.extend(_dev_tasks(i, system, dname, p, kq if tier == "quick" else kt))
+    # the same CUSUM tests at level 3e7 (estimated and re-estimated statistics only: given ones stay exact)
+    for p in OFFSET_CFGS:
+        for t in _dfs_tasks("CUSUM", "est", p, 8 if tier == "quick" else 9, CusumModel):
+            t["cfg"] = {"id": t["cfg"]["id"] + "@3e7", "params": p, "offset": 3.0e7}
+            t["label"] = t["label"].replace("CUSUM|", "CUSUM|offset3e7|", 1)
+            out.append(t)
     return out
 
 
+OFFSET_CFGS = [
+    {"burn_in": 2, "delta": 0.5, "threshold": 1, "direction": None},
+    {"burn_in": 3, "delta": 0, "threshold": 2, "direction": None},
+    {"burn_in": 2, "delta": 0, "threshold": 2, "direction": "positive"},
+]
+
+
 REQUIRED = [
+    "offset_level_steps",
     "cusum_alarm_twosided_upper",
     "cusum_alarm_twosided_lower",
     "cusum_alarm_positive",
